@@ -98,8 +98,16 @@ def _parse_attribute_block(
     reset_mass = False
 
     additional_attrs: dict = {}
-    for line in lines:
-        if line.startswith("M  CHG"):
+    lines_iter = iter(lines)
+    for line in lines_iter:
+        if line.startswith(("A  ", "G  ")):
+            # Atom alias / group abbreviation: the following line is free text, not a property line.
+            next(lines_iter, None)
+        elif line.startswith("S  SKP"):
+            # S  SKPnnn: skip the next nnn lines.
+            for _ in range(_to_int(line[6:9])):
+                next(lines_iter, None)
+        elif line.startswith("M  CHG"):
             # M  CHGnn8 aaa vvv ...
             _merge_tuples_into_additional_attributes(
                 _parse_atom_value_assignments(line, atom_attrs), CHG, additional_attrs
